@@ -645,7 +645,9 @@ static inline int myth_mutex_unlock_body(myth_mutex_t * mutex) {
       }
     }
   }
-  return failed;
+  /* the number of retries is not an error code */
+  (void)failed;
+  return 0;
 }
 
 static inline int
